@@ -360,6 +360,14 @@ class Inliner(object):
                         acc += '_'
                 else:
                     acc = None
+                final = None
+                if acc is not None and any(isinstance(x, ast.Name) and x.id == acc for x in ast.walk(v)):
+                    # `xs = [h(x) for x in xs]`: the comprehension reads the old binding while it builds the new one
+                    final = acc
+                    acc = acc + '_new'
+                    while acc in caller_names:
+                        acc += '_'
+                    caller_names.add(acc)
                 if acc is not None:
                     g0 = v.generators[0]
                     init = ast.Assign(targets=[ast.Name(id=acc, ctx=ast.Store())], value=ast.List(elts=[], ctx=ast.Load()))
@@ -371,6 +379,9 @@ class Inliner(object):
                     ast.copy_location(app.value, v.elt)
                     if isinstance(s, ast.Return):
                         out.append(ast.copy_location(ast.Return(value=ast.Name(id=acc, ctx=ast.Load())), s))
+                    elif final is not None:
+                        out.append(ast.copy_location(ast.Assign(targets=[ast.Name(id=final, ctx=ast.Store())],
+                                                                value=ast.Name(id=acc, ctx=ast.Load())), s))
                     for o in out:
                         ast.fix_missing_locations(o)
                     return out
@@ -683,6 +694,8 @@ def apply(project, resolver, report_note=None):
             continue
         gone.append(fq)
         m.functions.pop(qual, None)
+        # (kept on the side for rules that look at a caller as written)
+        m.__dict__.setdefault('inlined_away', {})[qual] = g
         if g.cls is not None:
             g.cls.methods.pop(g.name, None)
         if g.parent is not None:
